@@ -192,7 +192,7 @@ def compare(ctx, enums, wit, step):
             if k not in model and k not in INHERITED:
                 ctx.count("absent_names_probed")
                 if hasattr(E, k):
-                    ctx.fail("C18:absent_name_answers", "enum %d (%s): name %r is not among the names %r but E.%s answers %r after %s" % (idx, form, k, sorted(model)[:6], k, getattr(E, k), step), wit)
+                    ctx.fail("C18:absent_name_answers", "enum %d (%s): name %r is not among the names %r but E.%s answers %s after %s" % (idx, form, k, sorted(model)[:6], k, safe_repr(getattr(E, k)), step), wit)
                     break
         for k, v in model.items():
             try:
